@@ -2,10 +2,12 @@ package props
 
 import (
 	"fmt"
+	"math"
 	"math/rand"
 	"sort"
 
 	"github.com/tidwall/geojson"
+	"github.com/tidwall/geojson/geo"
 	"github.com/tidwall/geojson/geometry"
 
 	"verif/internal/exact"
@@ -395,7 +397,86 @@ func firstPosObj(o geojson.Object) *geometry.Point {
 
 var collKinds = []string{"MultiPoint", "MultiLineString", "MultiPolygon", "GeometryCollection", "FeatureCollection"}
 
+// c10CircleChildren: a collection holding a Circle answers point probes as its
+// children do, also inside the thin sliver between the circle and its polygon
+// approximation.  Only leaf answers of the library are used: the expected
+// answer is "some non-empty child whose rectangle meets the probe's rectangle
+// gives that answer itself".
+func c10CircleChildren(c *mon.Ctx) {
+	n := c.Pick(20000, 400000)
+	for i := 0; i < n; i++ {
+		if !c.Mine(i) {
+			continue
+		}
+		r := c.SubRng("circle-child", i)
+		ctr := geometry.Point{X: r.Float64()*300 - 150, Y: r.Float64()*130 - 65}
+		m := math.Pow(10, 2+r.Float64()*3.7)
+		steps := []int{16, 32, 64, 64, 64}[r.Intn(5)]
+		nfar := []int{0, 1, 3, 70}[r.Intn(4)]
+		mkKids := func() []geojson.Object {
+			kids := []geojson.Object{}
+			for k := 0; k < nfar; k++ {
+				kids = append(kids, geojson.NewPoint(geometry.Point{X: ctr.X + 20 + float64(k%9), Y: ctr.Y - 15 + float64(k/9)}))
+				if k == nfar/2 {
+					kids = append(kids, geojson.NewCircle(ctr, m, steps))
+				}
+			}
+			if nfar == 0 {
+				kids = append(kids, geojson.NewCircle(ctr, m, steps))
+			}
+			return kids
+		}
+		var coll geojson.Object
+		kind := "GeometryCollection"
+		if i%2 == 0 {
+			coll = geojson.NewGeometryCollection(mkKids())
+		} else {
+			kind = "FeatureCollection"
+			coll = geojson.NewFeatureCollection(mkKids())
+		}
+		kids := coll.(geojson.Collection).Children()
+		for _, f := range []float64{0.5, 0.9995, 0.99995, 1.0005, 1.02} {
+			brg := (float64(r.Intn(steps)) + 0.5) * 360 / float64(steps)
+			if r.Intn(4) == 0 {
+				brg = float64(r.Intn(steps)) * 360 / float64(steps)
+			}
+			la, lo := geo.DestinationPoint(ctr.Y, ctr.X, f*m, brg)
+			p := geometry.Point{X: lo, Y: la}
+			for xi, x := range []geojson.Object{geojson.NewPoint(p), geojson.NewSimplePoint(p), geojson.NewFeature(geojson.NewPoint(p), "")} {
+				xn := [...]string{"Point", "SimplePoint", "Feature(Point)"}[xi]
+				c.SetCase(func() interface{} {
+					return map[string]interface{}{"collection": kind, "children": len(kids), "circle_centre": []float64{ctr.X, ctr.Y}, "meters": m, "steps": steps, "probe": xn, "probe_at": []float64{p.X, p.Y}, "radius_fraction": f, "bearing": brg}
+				})
+				c.Try(func() {
+					wantI, wantC := false, false
+					for _, k := range kids {
+						if k.Empty() || !k.Rect().IntersectsRect(x.Rect()) {
+							continue
+						}
+						wantI = wantI || k.Intersects(x)
+						wantC = wantC || k.Contains(x)
+					}
+					c.Eval()
+					c.Count("circle_child_probes")
+					if wantI {
+						c.Count("circle_child_probes_true")
+					}
+					cs := map[string]interface{}{"collection": kind, "children": len(kids), "indexed": coll.(geojson.Collection).Indexed(), "circle_centre": []float64{ctr.X, ctr.Y}, "meters": m, "steps": steps, "probe": xn, "probe_at": []float64{p.X, p.Y}, "radius_fraction": f, "bearing": brg}
+					if got := coll.Intersects(x); got != wantI {
+						cs["got"], cs["children_say"] = got, wantI
+						c.Violation("circle-child-intersects", "a collection with a Circle child answers Intersects differently from its children", cs)
+					} else if got := coll.Contains(x); got != wantC {
+						cs["got"], cs["children_say"] = got, wantC
+						c.Violation("circle-child-contains", "a collection with a Circle child answers Contains differently from its children", cs)
+					}
+				})
+			}
+		}
+	}
+}
+
 func c10Run(c *mon.Ctx) {
+	c10CircleChildren(c)
 	n := c.Pick(300000, 6000000)
 	for i := 0; i < n; i++ {
 		if !c.Mine(i) {
@@ -494,7 +575,7 @@ func c10Run(c *mon.Ctx) {
 }
 
 func init() {
-	must := []string{"collections_with_circle_children", "circle_probes", "indexed_collections", "unindexed_collections", "built_by_parse", "built_by_constructors", "searches_proper_subset", "search_early_stops", "intersects_true", "contains_true", "within_true", "indexed_vs_unindexed"}
+	must := []string{"circle_child_probes", "circle_child_probes_true", "collections_with_circle_children", "circle_probes", "indexed_collections", "unindexed_collections", "built_by_parse", "built_by_constructors", "searches_proper_subset", "search_early_stops", "intersects_true", "contains_true", "within_true", "indexed_vs_unindexed"}
 	for _, k := range collKinds {
 		must = append(must, "kind "+k)
 	}
